@@ -282,7 +282,29 @@ func init() {
 				}
 			}
 		}
-		os.Stdout.WriteString("c02suggest cases=" + strconv.Itoa(n*4) + " nontrivial=" + strconv.Itoa(nontrivial) + " mismatches=" + strconv.Itoa(bad) + "\n")
+		// one very large vocabulary (more distinct words than any plausible internal bound on the candidate list): a bound applied
+		// while ranging over the word set would keep a random subset
+		{
+			big := make([]database.Command, 0, 40000)
+			for j := 0; j < 40000; j++ {
+				big = append(big, database.Command{Command: "tool" + strconv.Itoa(j) + " run", Description: "word" + strconv.Itoa(j) + "x handles item" + strconv.Itoa(j)})
+			}
+			bdb := &database.Database{Commands: big}
+			for _, q := range []string{"word1234", "tool39999", "item777x", "wrd20000x", "tol5"} {
+				first := bdb.GetSuggestions(q, 5)
+				if len(first) > 0 {
+					nontrivial++
+				}
+				for k := 0; k < 3; k++ {
+					if again := bdb.GetSuggestions(q, 5); !eqStrings(first, again) {
+						bad++
+						os.Stdout.WriteString("MISMATCH (40000-command database) query=" + strconv.Quote(q) + " first=" + strconv.Quote(joinS(first)) + " again=" + strconv.Quote(joinS(again)) + "\n")
+						break
+					}
+				}
+			}
+		}
+		os.Stdout.WriteString("c02suggest cases=" + strconv.Itoa(n*4+5) + " nontrivial=" + strconv.Itoa(nontrivial) + " mismatches=" + strconv.Itoa(bad) + "\n")
 		if bad > 0 {
 			return 1
 		}
